@@ -57,6 +57,8 @@ typedef struct {
 	ev_t ev[];
 } shm_t;
 
+_Static_assert(__builtin_offsetof(shm_t, ev) == 72, "python side (driver/e3.py HDR) assumes a 72-byte header");
+_Static_assert(sizeof(ev_t) == 32, "ev_t layout");
 static shm_t *S;
 static __thread uint32_t my_tid = UINT32_MAX;
 static _Atomic uint32_t worker_tid_ctr = 64;
